@@ -479,7 +479,9 @@ where
                 if self.panic_is_violation {
                     Err(m)
                 } else {
-                    Err(format!("(aborted, not a violation of this property) {m}"))
+                    // a panic that this property does not own (C08 does): the case is aborted, not failed
+                    eprintln!("note: replayed case aborted by a panic that is not a violation of this property: {m}");
+                    Ok(())
                 }
             }
             CaseOutcome::Timeout => Err("timeout".into()),
